@@ -438,10 +438,14 @@ pub fn driver_main(engine: &dyn Engine) -> i32 {
 }
 
 fn cmd_check(engine: &dyn Engine, prop: &str, tier: Tier, known: &Known) -> i32 {
-    let Some(spec) = engine.spec(prop, tier) else {
+    let Some(mut spec) = engine.spec(prop, tier) else {
         eprintln!("HARNESS-ERROR: engine {} does not serve property {prop}", engine.name());
         return 2;
     };
+    // debugging aid: judge property `prop` on runs generated with another property's profile
+    if let Ok(p) = std::env::var("VERIF_PROFILE") {
+        spec.profile = p;
+    }
     let seed = env_u64("VERIF_SEED", DEFAULT_SEED);
     let jobs = env_u64("VERIF_JOBS", 16) as usize;
     let runs = env_u64("VERIF_RUNS", spec.runs);
